@@ -87,7 +87,33 @@ pub fn gen_int(rng: &mut Rng) -> String {
 
 pub fn gen_float(rng: &mut Rng) -> String {
     // decimal floating spellings; biased towards halfway cases between adjacent doubles / floats
-    let mode = rng.below(10);
+    let mode = rng.below(12);
+    if mode >= 10 {
+        // next to the midpoint of two adjacent single-precision values (exactly a double): text just below / at /
+        // just above it, by less than half a double ulp, with the f / h suffix - the double nearest to the text is the
+        // midpoint itself and is narrowed once (ties to even); rounding the text directly to single precision differs
+        let b = (rng.next() as u32) & 0x7F7F_FFFF;
+        let x = f32::from_bits(b) as f64;
+        let y = f32::from_bits(b + 1) as f64;
+        if x.is_finite() && y.is_finite() && x > 1e-30 && x < 1e30 {
+            let mid = format!("{:.40e}", x / 2.0 + y / 2.0);
+            let (m, e) = mid.split_once('e').unwrap();
+            let mut digits: Vec<u8> = m.replace('.', "").into_bytes();
+            digits.truncate(rng.range(17, 22) as usize);
+            match rng.below(3) {
+                0 => {}
+                1 => {
+                    // one more in the last kept place: just above the midpoint
+                    let mut i = digits.len() - 1;
+                    loop { if digits[i] == b'9' { digits[i] = b'0'; if i == 0 { break; } i -= 1; } else { digits[i] += 1; break; } }
+                }
+                _ => { let i = digits.len() - 1; digits[i] = b'0' + (rng.below(10) as u8); }
+            }
+            let ds = String::from_utf8(digits).unwrap();
+            return format!("{}.{}e{}{}", &ds[..1], &ds[1..], e, rng.pick(&["f", "F", "h", "f"]));
+        }
+        return "1.00000005960464478f".to_string();
+    }
     let mut s = if mode < 3 {
         // a value next to a midpoint: take a random double, step to the midpoint with its successor, print many digits
         let bits = rng.next() & 0x7FEF_FFFF_FFFF_FFFF;
